@@ -75,7 +75,9 @@ func (mach *marshalMachineStructAtlas) Step(driver *Marshaller, slab *marshalSla
 		fieldEntry = mach.cfg.StructMap.Fields[mach.index]
 	}
 	mach.value_rv = fieldEntry.ReflectRoute.TraverseToValue(mach.target_rv)
-	if fieldEntry.OmitEmpty && isEmptyValue(mach.value_rv) {
+	// A field behind a nil embedded pointer does not exist in this value: skip it
+	// (countEmittableStructFields does not count it either).
+	if !mach.value_rv.IsValid() || (fieldEntry.OmitEmpty && isEmptyValue(mach.value_rv)) {
 		mach.value_rv = reflect.Value{}
 		mach.index++
 		return mach.Step(driver, slab, tok)
@@ -95,11 +97,15 @@ func countEmittableStructFields(cfg *atlas.AtlasEntry, target_rv reflect.Value) 
 		if fieldEntry.Ignore {
 			continue
 		}
+		field_rv := fieldEntry.ReflectRoute.TraverseToValue(target_rv)
+		if !field_rv.IsValid() {
+			continue // behind a nil embedded pointer
+		}
 		if !fieldEntry.OmitEmpty {
 			total++
 			continue
 		}
-		if !isEmptyValue(fieldEntry.ReflectRoute.TraverseToValue(target_rv)) {
+		if !isEmptyValue(field_rv) {
 			total++
 			continue
 		}
